@@ -278,9 +278,9 @@ CANARIES = {
             "        return min(self.meta_size[0], grid_size[0]), min(self.meta_size[1], grid_size[1])",
             "        return self.meta_size[0], min(self.meta_size[1], grid_size[1])")]},
          dict(grid='merc_ll', meta_size=(4, 4), meta_buffer=80, level=1)),
-        ('right buffer truncation forgotten', {'mapproxy.grid': [(
-            "                    maxx = self.grid.bbox[2]\n", "                    pass\n")]},
-         dict(grid='merc_ll', meta_size=(2, 2), meta_buffer=0 + 300, level=2)),
+        ('meta height computed from the width', {'mapproxy.grid': [(
+            "        height = int(round((bbox[3] - bbox[1]) / res))", "        height = int(round((bbox[2] - bbox[0]) / res))")]},
+         dict(grid='merc_ll', meta_size=(3, 2), meta_buffer=10, level=3)),
     ],
     'MinimalMetaTile': [
         ('bounds use wrong corner', {'mapproxy.grid': [(
